@@ -29,7 +29,8 @@ pub fn yuv(cmd: &Value) -> Value {
 }
 
 /// {"op":"yuv_sweep","ys":[y0,y1,y2,y3]}: for every (cb, cr) the 4x1 picture
-/// y = ys, cb = [cb, cb], cr = [cr, cr]; "px"[(cb*256+cr)*4 + k] is pixel k.
+/// y = ys, cb = [cb, 255-cb], cr = [cr, 255-cr] (the two chroma samples differ, so each half of the
+/// group must use its own); "px"[(cb*256+cr)*4 + k] is pixel k.
 pub fn yuv_sweep(cmd: &Value) -> Value {
     let mut ev = cmd.clone();
     let ys = bytes(&cmd["ys"]);
@@ -38,7 +39,7 @@ pub fn yuv_sweep(cmd: &Value) -> Value {
         let mut lens_ok = true;
         for cb in 0..=255u8 {
             for cr in 0..=255u8 {
-                let out = h263_rs_yuv::bt601::yuv420_to_rgba(&ys, &[cb, cb], &[cr, cr], 4);
+                let out = h263_rs_yuv::bt601::yuv420_to_rgba(&ys, &[cb, 255 - cb], &[cr, 255 - cr], 4);
                 if out.len() != 16 {
                     lens_ok = false;
                     px.extend_from_slice(&[0, 0, 0, 0]);
